@@ -97,7 +97,7 @@ def main(prop, tier, seed, replay):
         if nviol > 5:
             continue
         rp = vlib.write_replay(prop, '%s_%d' % (f.kind, nviol),
-                               dict(property=prop, kind=f.kind, where=f.where, detail=f.detail, seed=seed, tier=tier, **f.replay))
+                               dict(dict(property=prop, kind=f.kind, where=f.where, detail=f.detail, seed=seed, tier=tier), **f.replay))
         print('VIOLATION property=%s replay=%s' % (prop, rp))
         exit_code = 1
     if (proof_broken or relevant_gen) and nviol == 0:
